@@ -36,21 +36,72 @@ import (
 // fixed universe
 
 const (
-	payValue = int64(1000) // V, msat
+	payValue = int64(1000) // base value of h0, msat
 	nHashes  = 2
 )
+
+// payVar is the creation info of one payment hash. The two hashes differ in every
+// creation field the stores persist: h0 is a small invoice payment, h1 a keysend-like
+// payment (blank payment request, first-hop custom records) whose amount and half
+// amount lie above 2^32 / 2^31. A re-initiation (InitPayment of a failed payment)
+// carries a *different* amount than the record it replaces (base <-> alt), so that a
+// store that keeps anything of the old record is seen.
+type payVar struct {
+	base, alt int64
+	payReq    []byte
+	custom    lnwire.CustomRecords
+}
+
+var payVars = [nHashes]payVar{
+	{base: payValue, alt: 600, payReq: []byte("lnverif")},
+	{base: 1<<32 + 1000, alt: 1000, payReq: nil, custom: lnwire.CustomRecords{65637: []byte{0xC1, 0x6}}},
+}
+
+// nextValue is the amount the next InitPayment of hash h carries: a function of what
+// the store currently reports for h (so that it is covered by the canonical key).
+func nextValue(h int, exists bool, cur int64) int64 {
+	if exists && cur == payVars[h].base {
+		return payVars[h].alt
+	}
+	return payVars[h].base
+}
+
+// realID maps the attempt-id token of an operation to the attempt id used on the
+// stores: the zero id, a plain one, and one above 2^32 whose low 32 bits equal the
+// plain one.
+func realID(tok uint64) uint64 {
+	switch tok {
+	case 1:
+		return 0
+	case 3:
+		return 1<<32 + 2
+	}
+	return tok
+}
 
 var (
 	hashes    [nHashes]lntypes.Hash
 	preimages [nHashes]lntypes.Preimage
 	srcVertex route.Vertex
 	srcPub    *btcec.PublicKey
+	midVertex route.Vertex
 	addrA     = [32]byte{0xA1, 0xA1}
 	addrB     = [32]byte{0xB2, 0xB2}
 	baseTime  = time.Unix(1_700_000_000, 0).UTC()
 
-	amtTok = map[string]int64{"V": payValue, "H": payValue / 2, "J": payValue/2 + 1}
+	amtToks = map[string]bool{"V": true, "H": true, "J": true}
 )
+
+// amtOf resolves an amount token against the payment's current amount.
+func amtOf(tok string, val int64) int64 {
+	switch tok {
+	case "V":
+		return val
+	case "H":
+		return val / 2
+	}
+	return val/2 + 1
+}
 
 func init() {
 	for i := range hashes {
@@ -62,6 +113,9 @@ func init() {
 	_ = priv
 	srcPub = pub
 	srcVertex = route.NewVertex(pub)
+	k2 := sha256.Sum256([]byte("verif-c16-intermediate-key"))
+	_, pub2 := btcec.PrivKeyFromBytes(k2[:])
+	midVertex = route.NewVertex(pub2)
 }
 
 // attempt kinds (final-hop records):
@@ -70,41 +124,53 @@ func init() {
 //	t  MPP(total=2V, addr=A)  (total mismatch) a  MPP(total=V, addr=B)        (address mismatch)
 //	b  blinded, total=V                        c  blinded, total=2V           (total mismatch)
 //	z  blinded, total=0 (missing)              x  blinded + MPP record        (forbidden)
+//
+// V is the amount of the payment at the time of the registration (mult * V).
 type kindInfo struct {
 	blinded  bool
 	mpp      bool
-	total    int64
+	mult     int64
 	addr     byte
 	describe string
 }
 
 var kinds = map[string]kindInfo{
 	"n": {describe: "no-mpp"},
-	"m": {mpp: true, total: payValue, addr: 'A', describe: "mpp(V,A)"},
-	"t": {mpp: true, total: 2 * payValue, addr: 'A', describe: "mpp(2V,A)"},
-	"a": {mpp: true, total: payValue, addr: 'B', describe: "mpp(V,B)"},
-	"b": {blinded: true, total: payValue, describe: "blinded(V)"},
-	"c": {blinded: true, total: 2 * payValue, describe: "blinded(2V)"},
-	"z": {blinded: true, total: 0, describe: "blinded(0)"},
-	"x": {blinded: true, mpp: true, total: payValue, addr: 'A', describe: "blinded+mpp"},
+	"m": {mpp: true, mult: 1, addr: 'A', describe: "mpp(V,A)"},
+	"t": {mpp: true, mult: 2, addr: 'A', describe: "mpp(2V,A)"},
+	"a": {mpp: true, mult: 1, addr: 'B', describe: "mpp(V,B)"},
+	"b": {blinded: true, mult: 1, describe: "blinded(V)"},
+	"c": {blinded: true, mult: 2, describe: "blinded(2V)"},
+	"z": {blinded: true, mult: 0, describe: "blinded(0)"},
+	"x": {blinded: true, mpp: true, mult: 1, addr: 'A', describe: "blinded+mpp"},
 }
 
 var (
 	attemptCache sync.Map // key -> *paymentsdb.HTLCAttemptInfo
 )
 
-// attemptFor builds (once) the real HTLCAttemptInfo for (hash, id, amount, kind).
-// The session key is a function of (hash, id): the SQL schema requires session keys
-// to be unique, lnd draws a fresh random key per attempt.
-func attemptFor(h int, id uint64, amt int64, kind string) *paymentsdb.HTLCAttemptInfo {
-	key := fmt.Sprintf("%d:%d:%d:%s", h, id, amt, kind)
+// attemptFor builds (once) the real HTLCAttemptInfo for (hash, id token, amount, kind,
+// record total). The session key is a function of (hash, id): the SQL schema requires
+// session keys to be unique, lnd draws a fresh random key per attempt.
+//
+// The route has two hops whose fields all differ (amount, channel, time lock, key);
+// only the final hop carries the MPP / blinded records: what the stores account for
+// is the *final* hop's amount and records.
+func attemptFor(h int, tok uint64, amt int64, kind string, total int64) *paymentsdb.HTLCAttemptInfo {
+	key := fmt.Sprintf("%d:%d:%d:%s:%d", h, tok, amt, kind, total)
 	if v, ok := attemptCache.Load(key); ok {
 		return v.(*paymentsdb.HTLCAttemptInfo)
 	}
 	ki := kinds[kind]
+	first := &route.Hop{
+		PubKeyBytes:      midVertex,
+		ChannelID:        uint64(9000 + tok),
+		OutgoingTimeLock: 150,
+		AmtToForward:     lnwire.MilliSatoshi(amt + 3),
+	}
 	hop := &route.Hop{
 		PubKeyBytes:      srcVertex,
-		ChannelID:        uint64(7000 + id),
+		ChannelID:        uint64(7000 + tok),
 		OutgoingTimeLock: 144,
 		AmtToForward:     lnwire.MilliSatoshi(amt),
 	}
@@ -113,23 +179,23 @@ func attemptFor(h int, id uint64, amt int64, kind string) *paymentsdb.HTLCAttemp
 		if ki.addr == 'B' {
 			ad = addrB
 		}
-		hop.MPP = record.NewMPP(lnwire.MilliSatoshi(ki.total), ad)
+		hop.MPP = record.NewMPP(lnwire.MilliSatoshi(total), ad)
 	}
 	if ki.blinded {
-		hop.EncryptedData = []byte{1, 2, 3, byte(id)}
+		hop.EncryptedData = []byte{1, 2, 3, byte(tok)}
 		hop.BlindingPoint = srcPub
-		hop.TotalAmtMsat = lnwire.MilliSatoshi(ki.total)
+		hop.TotalAmtMsat = lnwire.MilliSatoshi(total)
 	}
 	rt := route.Route{
 		TotalTimeLock: 200,
 		TotalAmount:   lnwire.MilliSatoshi(amt + 7), // 7 msat of fees
 		SourcePubKey:  srcVertex,
-		Hops:          []*route.Hop{hop},
+		Hops:          []*route.Hop{first, hop},
 	}
-	sk := sha256.Sum256([]byte(fmt.Sprintf("verif-c16-session-%d-%d", h, id)))
+	sk := sha256.Sum256([]byte(fmt.Sprintf("verif-c16-session-%d-%d", h, tok)))
 	priv, _ := btcec.PrivKeyFromBytes(sk[:])
 	hh := hashes[h]
-	att, err := paymentsdb.NewHtlcAttempt(id, priv, rt, baseTime.Add(time.Duration(id)*time.Second), &hh)
+	att, err := paymentsdb.NewHtlcAttempt(realID(tok), priv, rt, baseTime.Add(time.Duration(tok)*time.Second), &hh)
 	if err != nil {
 		panic(fmt.Sprintf("harness: cannot build attempt %s: %v", key, err))
 	}
@@ -144,8 +210,11 @@ func attemptFor(h int, id uint64, amt int64, kind string) *paymentsdb.HTLCAttemp
 type op struct {
 	kind   string // init reg settle failatt fail del delfa dfa delall reopen
 	h      int
-	id     uint64
-	amt    int64
+	id     uint64 // real attempt id
+	tok    uint64 // attempt id token of the alphabet
+	amt    int64  // reg: resolved amount (see resolve)
+	total  int64  // reg: resolved total of the MPP / blinded record
+	val    int64  // init: resolved payment amount
 	amtTok string
 	akind  string
 	reason int
@@ -153,6 +222,27 @@ type op struct {
 	fho    bool
 	raw    string
 }
+
+// resolve fills in the amounts that depend on the payment's current amount: the
+// amount an InitPayment carries (nextValue) and the attempt amount / record total of a
+// RegisterAttempt (relative to the payment's amount; the base amount if the payment
+// does not exist - such a registration is refused anyway).
+func (o op) resolve(exists bool, cur int64) op {
+	switch o.kind {
+	case "init":
+		o.val = nextValue(o.h, exists, cur)
+	case "reg":
+		v := cur
+		if !exists {
+			v = payVars[o.h].base
+		}
+		o.amt = amtOf(o.amtTok, v)
+		o.total = kinds[o.akind].mult * v
+	}
+	return o
+}
+
+func (o op) needsValue() bool { return o.kind == "init" || o.kind == "reg" }
 
 func parseOp(s string) (op, error) {
 	f := strings.Split(s, ":")
@@ -179,12 +269,12 @@ func parseOp(s string) (op, error) {
 			return bad()
 		}
 		id, err := strconv.ParseUint(f[2], 10, 64)
-		a, ok := amtTok[f[3]]
+		ok := amtToks[f[3]]
 		_, ok2 := kinds[f[4]]
 		if err != nil || !ok || !ok2 {
 			return bad()
 		}
-		o.id, o.amt, o.amtTok, o.akind = id, a, f[3], f[4]
+		o.tok, o.id, o.amtTok, o.akind = id, realID(id), f[3], f[4]
 	case "settle", "failatt":
 		if len(f) != 3 || !hidx(f[1]) {
 			return bad()
@@ -193,7 +283,7 @@ func parseOp(s string) (op, error) {
 		if err != nil {
 			return bad()
 		}
-		o.id = id
+		o.tok, o.id = id, realID(id)
 	case "fail":
 		if len(f) != 3 || !hidx(f[1]) {
 			return bad()
@@ -503,6 +593,13 @@ type obsT struct {
 	qProj    map[int]pproj
 	qTotal   int
 	qErr     string
+	// further QueryPayments options (backend.query2): only complete payments; one
+	// payment per call from the end (Reversed) and after the first (IndexOffset)
+	q2      bool
+	qSucc   []int
+	qLast   []int
+	qSecond []int
+	q2Err   string
 }
 
 func (o *obsT) stateString() string {
@@ -536,10 +633,50 @@ type backend struct {
 	txHook func(readOnly bool)
 
 	kvStoreBackend kvdb.Backend
+	// noMig: re-instantiate the KVStore with WithNoMigration(true) (the buckets
+	// exist: the option must make no difference)
+	noMig bool
+	// query2: observe further QueryPayments options (see obsT)
+	query2 bool
 
 	// SQL side
-	sq *sqlHandle
-	cq *countingExec
+	sq     *sqlHandle
+	cq     *countingExec
+	sqlCfg string // "" = sqldb.DefaultSQLiteConfig(), see queryCfg
+}
+
+// queryCfg maps the name of an SQL query configuration to the configuration: the
+// default one (batches of 250 ids, pages of 100 rows: with two payments never more
+// than one page / batch), "tiny" (every page and every IN-batch holds one item, so
+// two payments / attempts / hops already span several pages and batches) and "two"
+// (a page is exactly full with two payments).
+func queryCfg(name string) *sqldb.QueryConfig {
+	switch name {
+	case "tiny":
+		return &sqldb.QueryConfig{MaxBatchSize: 1, MaxPageSize: 1}
+	case "two":
+		return &sqldb.QueryConfig{MaxBatchSize: 2, MaxPageSize: 2}
+	}
+	return sqldb.DefaultSQLiteConfig()
+}
+
+// current reports whether the store knows hash h and with which amount (used to
+// resolve amount tokens where no reference ledger exists).
+func (b *backend) current(h int) (bool, int64) {
+	p, err := b.db.FetchPayment(bg, hashes[h])
+	if err != nil || p == nil || p.Info == nil {
+		return false, 0
+	}
+	return true, int64(p.Info.Value)
+}
+
+// resolveOn resolves the amount tokens of o against what the store reports now.
+func (b *backend) resolveOn(o op) op {
+	if !o.needsValue() {
+		return o
+	}
+	ex, v := b.current(o.h)
+	return o.resolve(ex, v)
 }
 
 // countingExec wraps the real TransactionExecutor: it counts transactions and
@@ -791,14 +928,14 @@ func (b *backend) kvBackend() kvdb.Backend {
 	return b.bolt
 }
 
-func newSQLBackend(h *sqlHandle) (*backend, error) {
-	b := &backend{name: "sql", sq: h}
+func newSQLBackend(h *sqlHandle, cfg string) (*backend, error) {
+	b := &backend{name: "sql", sq: h, sqlCfg: cfg}
 	base := h.store.BaseDB
 	exec := sqldb.NewTransactionExecutor(base, func(tx *sql.Tx) paymentsdb.SQLQueries {
 		return base.WithTx(tx)
 	})
 	b.cq = &countingExec{BatchedSQLQueries: exec}
-	st, err := paymentsdb.NewSQLStore(&paymentsdb.SQLStoreConfig{QueryCfg: sqldb.DefaultSQLiteConfig()}, b.cq)
+	st, err := paymentsdb.NewSQLStore(&paymentsdb.SQLStoreConfig{QueryCfg: queryCfg(cfg)}, b.cq)
 	if err != nil {
 		return nil, err
 	}
@@ -811,14 +948,18 @@ func newSQLBackend(h *sqlHandle) (*backend, error) {
 // subsystem restarted"): all in-memory state of the store is dropped.
 func (b *backend) reopen() error {
 	if b.name == "kv" {
-		st, err := paymentsdb.NewKVStore(b.kvBackend())
+		var opts []paymentsdb.OptionModifier
+		if b.noMig {
+			opts = append(opts, paymentsdb.WithNoMigration(true))
+		}
+		st, err := paymentsdb.NewKVStore(b.kvBackend(), opts...)
 		if err != nil {
 			return err
 		}
 		b.db = st
 		return nil
 	}
-	st, err := paymentsdb.NewSQLStore(&paymentsdb.SQLStoreConfig{QueryCfg: sqldb.DefaultSQLiteConfig()}, b.cq)
+	st, err := paymentsdb.NewSQLStore(&paymentsdb.SQLStoreConfig{QueryCfg: queryCfg(b.sqlCfg)}, b.cq)
 	if err != nil {
 		return err
 	}
@@ -849,14 +990,21 @@ func (b *backend) exec(o op) (r result) {
 	)
 	switch o.kind {
 	case "init":
+		if o.val == 0 {
+			panic("exec: unresolved " + o.raw)
+		}
 		err = b.db.InitPayment(bg, hashes[o.h], &paymentsdb.PaymentCreationInfo{
-			PaymentIdentifier: hashes[o.h],
-			Value:             lnwire.MilliSatoshi(payValue),
-			CreationTime:      baseTime,
-			PaymentRequest:    []byte("lnverif"),
+			PaymentIdentifier:     hashes[o.h],
+			Value:                 lnwire.MilliSatoshi(o.val),
+			CreationTime:          baseTime,
+			PaymentRequest:        payVars[o.h].payReq,
+			FirstHopCustomRecords: payVars[o.h].custom,
 		})
 	case "reg":
-		p, err = b.db.RegisterAttempt(bg, hashes[o.h], attemptFor(o.h, o.id, o.amt, o.akind))
+		if o.amt == 0 {
+			panic("exec: unresolved " + o.raw)
+		}
+		p, err = b.db.RegisterAttempt(bg, hashes[o.h], attemptFor(o.h, o.tok, o.amt, o.akind, o.total))
 	case "settle":
 		p, err = b.db.SettleAttempt(bg, hashes[o.h], o.id, &paymentsdb.HTLCSettleInfo{
 			Preimage: preimages[o.h], SettleTime: baseTime.Add(time.Minute),
@@ -926,6 +1074,7 @@ func (b *backend) observe(nh, only int, listings, withQuery bool, prev *obsT) ob
 		if prev != nil {
 			o.inflight, o.inflProj, o.inflErr = prev.inflight, prev.inflProj, prev.inflErr
 			o.query, o.qProj, o.qTotal, o.qErr = prev.query, prev.qProj, prev.qTotal, prev.qErr
+			o.q2, o.qSucc, o.qLast, o.qSecond, o.q2Err = prev.q2, prev.qSucc, prev.qLast, prev.qSecond, prev.q2Err
 		}
 		return o
 	}
@@ -963,6 +1112,33 @@ func (b *backend) observe(nh, only int, listings, withQuery bool, prev *obsT) ob
 			}
 		}
 		o.qTotal = int(resp.TotalCount)
+		if b.query2 && err == nil {
+			o.q2 = true
+			idx := func(q paymentsdb.Query) []int {
+				r, err := b.db.QueryPayments(bg, q)
+				if err != nil {
+					o.q2Err += " ERR:" + classOf(err) + ":" + err.Error()
+					return nil
+				}
+				var out []int
+				for _, p := range r.Payments {
+					hi := -1
+					if p.Info != nil {
+						hi = hashIndex(p.Info.PaymentIdentifier)
+					}
+					if hi >= 0 && projOf(p, hashes[hi]).String() != o.qProj[hi].String() {
+						hi = -2 // reported differently than by the full listing
+					}
+					out = append(out, hi)
+				}
+				return out
+			}
+			o.qSucc = idx(paymentsdb.Query{MaxPayments: 100})
+			o.qLast = idx(paymentsdb.Query{MaxPayments: 1, IncludeIncomplete: true, Reversed: true})
+			if len(resp.Payments) > 0 {
+				o.qSecond = idx(paymentsdb.Query{MaxPayments: 1, IncludeIncomplete: true, IndexOffset: resp.FirstIndexOffset})
+			}
+		}
 	}
 	return o
 }
